@@ -154,8 +154,11 @@ theorem exec_i2rw (h : VmInv a B s) (hpc : s.pc < plen) (hB : plen ≤ B) (hi : 
   obtain ⟨h1, h2, h3, h4, h5, h6, h7, h8⟩ := h
   cases hv : s.inValid[Isa.field body a.r a.inBits] with
   | true =>
-    refine ⟨_, by simp [Isa.exec, hg1, hg2, hv, hk] <;> rfl, ?_⟩
-    constructor <;> first | assumption | (show s.pc + 1 ≤ B; omega) | (simp only [List.length_set]; assumption)
+    by_cases hw : s.inRecv[Isa.field body a.r a.inBits]? = some true
+    · refine ⟨s, by simp [Isa.exec, hg1, hg2, hv, hw], ?_⟩
+      constructor <;> assumption
+    · refine ⟨_, by simp [Isa.exec, hg1, hg2, hv, hk, hw] <;> rfl, ?_⟩
+      constructor <;> first | assumption | (show s.pc + 1 ≤ B; omega) | (simp only [List.length_set]; assumption)
   | false =>
     refine ⟨_, by simp [Isa.exec, hg1, hg2, hv] <;> rfl, ?_⟩
     constructor <;> first | assumption | (show s.pc ≤ B; omega) | (simp only [List.length_set]; assumption)
@@ -168,13 +171,16 @@ theorem exec_r2owa (h : VmInv a B s) (hpc : s.pc < plen) (hB : plen ≤ B) (ho :
   have hg1 : s.regs[Isa.field body 0 a.r]? = some (s.regs[Isa.field body 0 a.r]) := List.getElem?_eq_getElem hk
   have hg2 : s.outRecv[Isa.field body a.r a.outBits]? = some (s.outRecv[Isa.field body a.r a.outBits]) := List.getElem?_eq_getElem ho2
   obtain ⟨h1, h2, h3, h4, h5, h6, h7, h8⟩ := h
-  cases hv : s.outRecv[Isa.field body a.r a.outBits] with
-  | true =>
-    refine ⟨_, by simp [Isa.exec, hg1, hg2, hv, ho1] <;> rfl, ?_⟩
-    constructor <;> first | assumption | (show s.pc + 1 ≤ B; omega) | (simp only [List.length_set]; assumption)
-  | false =>
-    refine ⟨_, by simp [Isa.exec, hg1, hg2, hv, ho1] <;> rfl, ?_⟩
-    constructor <;> first | assumption | (show s.pc ≤ B; omega) | (simp only [List.length_set]; assumption)
+  by_cases hw : s.outValid[Isa.field body a.r a.outBits]? = some false ∧ s.outRecv[Isa.field body a.r a.outBits] = true
+  · refine ⟨s, by simp [Isa.exec, hg1, hg2, hw], ?_⟩
+    constructor <;> assumption
+  · cases hv : s.outRecv[Isa.field body a.r a.outBits] with
+    | true =>
+      refine ⟨_, by simp [Isa.exec, hg1, hg2, hv, ho1] <;> (simp [hv] at hw; simp [hw]) <;> rfl, ?_⟩
+      constructor <;> first | assumption | (show s.pc + 1 ≤ B; omega) | (simp only [List.length_set]; assumption)
+    | false =>
+      refine ⟨_, by simp [Isa.exec, hg1, hg2, hv, ho1] <;> rfl, ?_⟩
+      constructor <;> first | assumption | (show s.pc ≤ B; omega) | (simp only [List.length_set]; assumption)
 
 end exec
 
